@@ -209,7 +209,7 @@ CHECKS["C15"] = dict(
               "pattern-initialised builds for dependence on uninitialised memory",
     text="For each of the 20 cpu_list entries with a simulator (15 simulator classes): all 65 536 values of the leading half-word (and of the "
          "second half-word for 32-bit instruction sets) x operand fills 00/ff/55aa/7f80 x register presets (reset state, all registers "
-         "0xffffffff, 0x55aa55aa, stack pointer 0/1/0xffff/0xfffe) at pc 0x1000, plus pc 0 (operands pointing at the instruction itself) "
+         "0xffffffff, 0x55aa55aa, stack pointer 0/1/0xffff/0xfffe, every third register of the name list zero and the others all ones) at pc 0x1000, plus pc 0 (operands pointing at the instruction itself) "
          "and the top of the 64 KiB space. Every step must return control (no signal, no exit(), no hang), raise no AddressSanitizer/UBSan "
          "bounds report, give the same dump + memory + return value on a second identically prepared simulator, and the same results in the "
          "zero- and pattern-initialised builds; for the simulators that size instructions with the disassembler (6502, 65816, 65832) the pc "
@@ -224,11 +224,13 @@ CHECKS["C16"] = dict(
               "menus, all files of at most two bytes) through the sanitizer build of the real naken_asm, one process per input",
     text="Around 12 hand-written seed programs and one corpus-derived seed per CPU: every token position x {delete, duplicate, swap with "
          "the next token, replace by each of 24 punctuation/control bytes}; every identifier, number, string, macro/define body and argument "
-         "blown up to each length of {127 ... 4097, 65537}; operand counts 1..12 for three mnemonics of every CPU; macro/define parameter "
-         "counts; 17 nesting constructs at depths {127, 128, 129, 130, 1000} plus self- and mutually-recursive defines, macros and includes; "
+         "blown up to each length of {127 ... 4097, 65537}; every seed cut off after every byte; operand counts 1..12 for three mnemonics of "
+         "every CPU (from the corpus or from the decoder's renderings); macro/define parameter counts; 17 nesting constructs at depths "
+         "{127, 128, 129, 130, 1000} (100000 for parentheses, unary chains, conditionals, repeats, scopes) plus self- and mutually-"
+         "recursive defines, macros and includes; "
          "23 address-taking directives x 8 boundary values x 4 CPUs; option menus (every output type with and without CPU directive, "
          "missing / over-long / repeated options, 300 include paths); sparse images in every output type; every source file of at most 2 "
-         "bytes (65 793 files, and 8 192 after a CPU directive). Quick 23.6 k inputs, thorough 130.5 k. Oracle: exit status 0 or 1, a "
+         "bytes (65 793 files, and 8 192 after a CPU directive). Quick 27.7 k inputs, thorough 135 k. Oracle: exit status 0 or 1, a "
          "diagnostic whenever the status is 1, no signal, no AddressSanitizer / UBSan bounds / divide-by-zero report, at most 2 s of CPU "
          "time (a normal run takes about 10 ms; the slowest passing run is recorded in the evidence).",
     note="Runs killed for exceeding the 64 MiB output limit (bin/elf images of a sparse program) are not judged. Explicit repetition "
@@ -240,13 +242,14 @@ CHECKS["C17"] = dict(
               "extremes) and of interactive command sessions (all sequences up to depth 2-3 over a command x argument menu) through the "
               "sanitizer build of the real naken_util, one process per case",
     text="Seed files written by naken_asm itself in every writable format (hex, srec, elf, wdc, uf2, amiga, macho, bin; three programs) "
-         "plus a hand-written TI-TXT and empty files. Per seed: truncation at every offset; every byte -> {00, 7f, 80, ff}; every character "
+         "plus a hand-written TI-TXT, a hand-written ELF64 (every 64-bit field -> 8 extremes) and empty files. Per seed: truncation at every offset; every byte -> {00, 7f, 80, ff}; every character "
          "of the text formats -> 9 characters; every aligned 32-bit word, little and big endian, -> {0, 1, old-1, old+1, 0x7fffffff, "
          "0x80000000, 0xffffffff, file size, file size+1}; every aligned 16-bit half -> 5 values; appended garbage. Each variant x CPU "
          "selection {none, msp430, avr8, mips, 68000} x mode {-disasm, a scripted info/symbols/print/disasm/registers session, "
-         "-disasm_range}. Sessions: every single command of a 31-command x 18-argument menu, every pair (quick: 5-argument menu, "
-         "thorough: 10-argument menu), every triple with a fixed argument, after `speed 0` and ended by `quit`, on a loaded program and "
-         "without a file; option menus; `disasm` at the top of memory for all 68 CPUs. Quick 85 k runs, thorough 492 k. Oracle: exit "
+         "-disasm_range}. Sessions: every single command of a 32-command x 21-argument menu, every pair (quick: 5-argument menu, "
+         "thorough: 10-argument menu), every triple with a fixed argument, after `speed 0` and ended by `quit`, on a program loaded with "
+         "-msp430, loaded without a CPU option, and without a file; option menus; `disasm` at the top of memory for all 68 CPUs. Quick "
+         "95 k runs, thorough 605 k. Oracle: exit "
          "status 0 or 1, no signal, no AddressSanitizer / UBSan report, at most 2 s of CPU time and 64 MiB of output.",
     note="Free-running simulations (run / call after a non-zero speed) and -run on damaged files are not posed: a simulated program "
          "that loops is not a defect of naken_util.")
